@@ -153,11 +153,13 @@ def eval_gates(case, acc=None):
         acc.count(f'outcome:baseline-{basel.outcome}')
         if basel.outcome == 'solved':
             acc.count('probe:baseline-solved')
-    rng = core.Rng(core.h64('c09v', core.digest(case)))
+    # (every gate's choices depend on the scenario and the gate only, so that a replay of one gate makes the same ones)
+    base_digest = core.digest({k: v for k, v in case.items() if k != 'gates'})
     for q in todo:
         ent = cat.get(gate_key(q))
         if ent is None:
             continue
+        rng = core.Rng(core.h64('c09v', base_digest, q))
         # any spelling the input itself accepts for that answer
         spec = shipped.Persona(case['persona']).spec(q) or {}
         if spec.get('type') == 'bool':
@@ -173,7 +175,7 @@ def eval_gates(case, acc=None):
         # the statement or form copy the gate sits on may be named in the request as well (with its sibling copies)
         req = list(case['persona']['forms'])
         finst = q.split('.')[0]
-        if ':' in finst and rng.chance(0.4):
+        if ':' in finst and rng.chance(0.7 if finst.split(':')[1].isdigit() else 0.4):
             base_, inst_ = finst.split(':')
             sibs = [finst]
             if inst_.isdigit():
